@@ -40,7 +40,7 @@ ASSUMPTIONS = [
 
 def run(ctx: Ctx):
   m = model(ctx)
-  for r in (r1, r2, r3, r4, r5, r6, r8, r9):
+  for r in (r1, r2, r3, r4, r5, r6, r8, r9, r10, r11):
     ctx.guard(r, m)
   ctx.include('R-C11-7', '"a freshly created (empty) state is a neutral element'
               ' on either side": merge combines every accumulated statistic on'
@@ -571,6 +571,111 @@ def r9(ctx: Ctx, m):
   ctx.floor(rule, 0, n)
 
 
+def r10(ctx: Ctx, m):
+  rule = 'R-C11-10'
+  ctx.rule(rule, '"merging gives the same result for every grouping and order": an accumulator that keeps one sub-state per'
+           ' KEY (`self.<state>[key]`) merges key by key over the keys of the OPERAND\'s state (other.state.items() / keys())'
+           ' or over the very collection add() iterates to fill it (the normalised `self._metrics`). Iterating anything else'
+           ' — e.g. the raw configuration value, which may be a single name (a str iterates as characters) — touches keys'
+           ' that are not in the state and never the real ones: merge silently becomes a no-op for that configuration')
+  n = 0
+  for ci in m.accumulators:
+    merge = ci.methods.get('merge')
+    if merge is None:
+      continue
+    op = m.operand(merge)
+    for lp in walk_no_nested(merge.node):
+      if not isinstance(lp, ast.For):
+        continue
+      lvars = {y.id for y in ast.walk(lp.target) if isinstance(y, ast.Name)}
+      keyed = [sub for x in ast.walk(lp) for sub in ([x] if isinstance(x, ast.Subscript) else [])
+               if is_self_attr(sub.value) and isinstance(sub.slice, ast.Name) and sub.slice.id in lvars]
+      if not keyed:
+        continue
+      fld = keyed[0].value.attr
+      n += 1
+      it_names = {y.id for y in ast.walk(lp.iter) if isinstance(y, ast.Name)}
+      from_operand = op in it_names
+      same_as_add = False
+      for other_m in ('add', 'new', '_metric_states', 'result'):
+        om = m.method_of(ci, other_m)
+        if om is None or other_m == 'result':
+          continue
+        for l2 in ast.walk(om.node):
+          if isinstance(l2, ast.For) and norm(unparse(l2.iter)) == norm(unparse(lp.iter)):
+            v2 = {y.id for y in ast.walk(l2.target) if isinstance(y, ast.Name)}
+            if any(isinstance(x, ast.Subscript) and is_self_attr(x.value, fld) and isinstance(x.slice, ast.Name)
+                   and x.slice.id in v2 for x in ast.walk(l2)):
+              same_as_add = True
+          # ... or add gates each fill by membership in that collection: `if 'x' in <coll>: self.<state>['x'].add(...)`
+          if isinstance(l2, ast.If) and isinstance(l2.test, ast.Compare) and len(l2.test.ops) == 1 and isinstance(
+              l2.test.ops[0], ast.In) and norm(unparse(l2.test.comparators[0])) == norm(unparse(lp.iter)) and any(
+                  isinstance(x, ast.Subscript) and is_self_attr(x.value, fld) for b in l2.body for x in ast.walk(b)):
+            same_as_add = True
+      what = f'{ci.name}.merge: the keyed state `{fld}` is merged over the operand\'s keys (or add\'s key collection)'
+      if from_operand or same_as_add:
+        ctx.ok(rule, merge, what, lp)
+      else:
+        ctx.fail(rule, merge, what,
+                 f'{ci.name}.merge loops `for {unparse(lp.target)} in {unparse(lp.iter)}` and merges self.{fld}[...] per key,'
+                 f' but `{unparse(lp.iter)}` is neither the operand\'s state nor the collection add() fills self.{fld} from:'
+                 ' when it yields other keys (a single metric name iterates as characters) the real sub-states are never'
+                 ' merged and bogus ones are created — merge(a, b) reports a alone', node=lp)
+  ctx.floor(rule, 1, n)
+
+
+_INPLACE_METHODS = {'append', 'extend', 'update', 'add', 'insert', 'pop', 'popleft', 'remove', 'clear', 'sort', 'fill', 'put',
+                    'resize', 'itemset', 'setdefault'}
+
+
+def r11(ctx: Ctx, m):
+  rule = 'R-C11-11'
+  ctx.rule(rule, '"merge only ever modifies its receiver" / every grouping gives the same result: two accumulator FIELDS that'
+           ' are bound to one and the same mutable object (a chained assignment `self._a = self._b = <array>` in the'
+           ' constructor) are never updated in place (`self._a += ...`, `self._a[...] = ...`, a mutating method): the update'
+           ' would hit every alias — each histogram would receive the sum of all of them. As long as every update rebinds'
+           ' the field the sharing is harmless')
+  n = 0
+  for ci in m.classes:
+    aliases: list[set[str]] = []
+    for name in ('__init__', '__post_init__'):
+      fi = ci.methods.get(name)
+      if fi is None:
+        continue
+      for x in walk_no_nested(fi.node):
+        if isinstance(x, ast.Assign):
+          flds = {t.attr for t in x.targets if is_self_attr(t)}
+          if len(flds) >= 2 and not isinstance(x.value, ast.Constant):
+            aliases.append(flds)
+    for grp in aliases:
+      n += 1
+      bad = None
+      for fi in ci.methods.values():
+        for x in ast.walk(fi.node):
+          if isinstance(x, ast.AugAssign):
+            t = x.target
+            base = t.value if isinstance(t, ast.Subscript) else t
+            if is_self_attr(base) and base.attr in grp:
+              bad = (fi, x)
+          elif isinstance(x, ast.Assign):
+            for t in x.targets:
+              if isinstance(t, ast.Subscript) and is_self_attr(t.value) and t.value.attr in grp:
+                bad = (fi, x)
+          elif isinstance(x, ast.Call) and isinstance(x.func, ast.Attribute) and x.func.attr in _INPLACE_METHODS and is_self_attr(
+              x.func.value) and x.func.value.attr in grp:
+            bad = (fi, x)
+      what = f'{ci.name}: the fields {sorted(grp)} share their initial object and are only ever rebound'
+      if bad is None:
+        ctx.ok(rule, ci.methods.get('__post_init__') or ci.methods.get('__init__'), what, ci.node)
+      else:
+        fi, x = bad
+        ctx.fail(rule, fi, what,
+                 f'{ci.name} binds {sorted(grp)} to ONE object when it is created, and {fi.qualname} updates one of them in place'
+                 f' (`{unparse(x)[:70]}`): on a state that was never rebound (a fresh receiver) the update lands in all'
+                 f' {len(grp)} fields — fresh.merge(a) puts the sum of a\'s statistics into each of them', node=x)
+  ctx.floor(rule, 1, n)
+
+
 def _is_emptiness(t: ast.AST, flags: set) -> bool:
   while isinstance(t, ast.UnaryOp) and isinstance(t.op, ast.Not):
     t = t.operand
@@ -591,6 +696,16 @@ _R = 'aggregates/rolling_stats.py'
 _U = 'aggregates/utils.py'
 _T = 'aggregates/retrieval.py'
 VARIANTS = [
+    B('samplewise-merge-iterates-raw-config', 'aggregates/classification.py',
+      '    for key, value in other.state.items():\n      self._state[key].merge(value)',
+      '    for metric in self.metrics:\n      self._state[metric].merge(other.state[metric])', 'R-C11-10'),
+    OK('samplewise-merge-iterates-normalised-metrics', 'aggregates/classification.py',
+       '    for key, value in other.state.items():\n      self._state[key].merge(value)',
+       '    for metric in self._metrics:\n      self._state[metric].merge(other.state[metric])'),
+    B('calibration-merge-in-place-on-aliased-fields', 'metrics/classification.py',
+      '    return self._merge(\n        other.num_examples_hist,\n        other.labels_hist,\n        other.predictions_hist,\n        other.bin_edges,\n    )',
+      '    self._num_examples_hist += other.num_examples_hist\n    self._labels_hist += other.labels_hist\n    self._predictions_hist += other.predictions_hist\n    return self',
+      'R-C11-11'),
     B('add-replaces-placeholders-merge-does-not', 'aggregates/rolling_stats.py',
       '    self._min = np.minimum(self._min, np.min(inputs, axis=self.axis))\n    self._max = np.maximum(self._max, np.max(inputs, axis=self.axis))\n',
       '    batch_min = np.min(inputs, axis=self.axis)\n    batch_max = np.max(inputs, axis=self.axis)\n    if is_first_batch:\n      self._min, self._max = batch_min, batch_max\n    else:\n      self._min = np.minimum(self._min, batch_min)\n      self._max = np.maximum(self._max, batch_max)\n',
